@@ -55,7 +55,10 @@ PROPS["C10"] = dict(
                "source: 35 functions (sample, x, y, derivative, dx, dy, flip, split_range, split, before_split, after_split "
                "of the three segment types, to_cubic, to_quadratic) are ALSO regenerated from the source text on every run "
                "by the translator tools/rs2coq.py (Gen/Functions.v) and proved equal to the models (Proofs/Gen_Geom.v), and "
-               "the split / flip / coordinate theorems are restated on the generated functions; the models "
+               "the split / flip / coordinate theorems are restated on the generated functions; LineSegment::solve_t_for_x / y, "
+               "solve_y_for_x, solve_x_for_y and the baseline of both curves are regenerated too and proved to invert the "
+               "regenerated evaluation (non-degenerate segment, any abscissa), to answer 0 on the degenerate branch and to "
+               "join the curve's end points; the models "
                "are compared with lyon_geom (f64) for exact equality on the exactness domain. Length "
                "additivity is transcendental: validated numerically per run (not a theorem, except for lines).",
     level_note="Trusted: Coq kernel; model fidelity by differential runs on integer control points / dyadic parameters "
@@ -123,7 +126,9 @@ PROPS["C11"] = dict(
                "monotonic ranges chain from 0 to 1, every piece is x- and y-monotone and (clamp = identity) is exactly the "
                "sub-range of the curve. Cubic: the reported local extrema are exactly the roots of the derivative in (0,1) "
                "(given a correct square root of the discriminant), the exact range contains the curve, the fast range "
-               "(convex hull) contains the curve. Model compared with lyon_geom (f64) exactly on curves constructed with "
+               "(convex hull) contains the curve; fast_bounding_range_x / y of the cubic are regenerated from cubic_bezier.rs on every "
+               "run (tools/rs2coq.py), proved to BE the model's fast range, to contain the curve the regenerated x / y "
+               "evaluate, and to end at control ordinates. Model compared with lyon_geom (f64) exactly on curves constructed with "
                "dyadic extremum parameters; boxes of general f64 curves, of f32 cubics whose derivative has a tiny leading "
                "coefficient (degree-elevated quadratics and linear-derivative cubics moved by an affine map), of arcs and of "
                "whole paths (lyon_algorithms::aabb), the x-only / y-only / both-axes monotone splits with their pieces and "
@@ -368,7 +373,8 @@ PROPS["C07"] = dict(
     props_module="Props.C07",
     harness=[dict(sub="c07", profile="debug"), dict(sub="c07", profile="release")],
     rule="paths: crafted (vertex on an edge + crossing below, partially shared edges, shared vertex of 4 edges, bow-tie, three "
-         "edges through a point), random lattice polygons (1-4 sub-paths, grids 5 and 8), random curved paths (lines, "
+         "edges through a point; an active edge already cut by a crossing with a vertex on it above the crossing where a shorter "
+         "COINCIDENT edge starts - 48 variants, mirrored / transposed), random lattice polygons (1-4 sub-paths, grids 5 and 8), random curved paths (lines, "
          "quadratics, cubics); 0-3 attributes, affine in position or arbitrary; both fill rules and orientations; tolerance "
          "0.01 / 0.05 / 0.2; entry points tessellate_with_ids, tessellate_path, builder_with_attributes; every vertex is "
          "checked directly, vertices with several sources or an edge source (and a quarter of the others) go to Coq; "
